@@ -43,6 +43,7 @@ from zeroconf._updates import RecordUpdateListener  # noqa: E402
 T0 = 1_000_000  # first instant of every history (0 is falsy inside the library)
 
 TRUSTED_COMMON = [
+    "instant 0 is falsy in DNSRecord.__init__ / DNSIncoming (`created or current_time_millis()`): the harness starts at 1 000 000 ms; the theorems quantify over all instants",
     "harness/cachecommon.py: the stub `zc` (cache, record_manager, question_history, async_notify_all, dummy loop) stands in for "
     "Zeroconf; only DNSCache, RecordManager, _ServiceBrowserBase (callback side), AsyncEngine._async_cache_cleanup, DNSOutgoing and "
     "DNSIncoming are real code",
@@ -451,6 +452,10 @@ class World:
             "U": [_opt(c.async_get_unique(r)) for r in p.objs],
             "D": [_opt(c.get_by_details(t[0], t[1], t[2])) for t in p.triples],
             "A": [[rl(r) for r in c.get_all_by_details(t[0], t[1], t[2])] for t in p.triples],
+            # the event-loop-only twins (separate bodies in _cache.py)
+            "AE": [[rl(r) for r in c.async_entries_with_name(n)] for n in p.names],
+            "AS": [[rl(r) for r in c.async_entries_with_server(n)] for n in p.names],
+            "AA": [[rl(r) for r in c.async_all_by_details(t[0], t[1], t[2])] for t in p.triples],
         }
 
     def ptr_view(self):
@@ -577,10 +582,11 @@ def _recs(l):
 
 def render_readers(R):
     o = lambda x: "~" if x is None else x  # noqa: E731
-    return "N=%s E=%s S=%s G=%s U=%s D=%s A=%s" % (
+    return "N=%s E=%s S=%s G=%s U=%s D=%s A=%s AE=%s AS=%s AA=%s" % (
         sep(",", R["N"]), sep(";", [_recs(x) for x in R["E"]]), sep(";", [_recs(x) for x in R["S"]]),
         sep(";", [o(x) for x in R["G"]]), sep(";", [o(x) for x in R["U"]]), sep(";", [o(x) for x in R["D"]]),
-        sep(";", [_recs(x) for x in R["A"]]))
+        sep(";", [_recs(x) for x in R["A"]]), sep(";", [_recs(x) for x in R["AE"]]), sep(";", [_recs(x) for x in R["AS"]]),
+        sep(";", [_recs(x) for x in R["AA"]]))
 
 
 def render_cb(cbs):
@@ -609,8 +615,9 @@ def render(obs):
                                                     _ids(obs["c2"]), obs["s2"] if obs["s2"] is not None else "!")
         return "%s n=%d cb=%s %s" % (head, 1 if obs["n"] else 0, render_cb(obs["cb"]), render_readers(obs["R"]))
     if k == "X":
-        e = "!" if obs["u"] is None else _recs([n for n, _ in obs["u"]])
-        return "X e=%s c1=%s c2=%s cb=%s %s" % (e, _ids(obs["c1"]), _ids(obs["c2"]), render_cb(obs["cb"]), render_readers(obs["R"]))
+        u = "!" if obs["u"] is None else sep(",", ["%s>%s" % (n, "~" if o is None else o) for n, o in obs["u"]])
+        return "X u=%s c1=%s c2=%s n=%d cb=%s %s" % (u, _ids(obs["c1"]), _ids(obs["c2"]), 1 if obs["n"] else 0, render_cb(obs["cb"]),
+                                                     render_readers(obs["R"]))
     if k in ("LA", "LR"):
         return "%s %s" % (k, _ids(obs["ids"]))
     if k == "BA":
@@ -814,6 +821,12 @@ def check_readers(ref, probes, R):
         cmp_list("entries_with_server", n, got, [i for i in d if i[0] == "s" and i[4][3] == n.lower()])
     for t, got in zip(probes.triples, R["A"]):
         cmp_list("get_all_by_details", tuple(t), got, [i for i in d if (i[1], i[2], i[3]) == (t[0].lower(), t[1], t[2])])
+    for n, got in zip(probes.names, R.get("AE", [])):
+        cmp_list("async_entries_with_name", n, got, [i for i in d if i[1] == n.lower()])
+    for n, got in zip(probes.names, R.get("AS", [])):
+        cmp_list("async_entries_with_server", n, got, [i for i in d if i[0] == "s" and i[4][3] == n.lower()])
+    for t, got in zip(probes.triples, R.get("AA", [])):
+        cmp_list("async_all_by_details", tuple(t), got, [i for i in d if (i[1], i[2], i[3]) == (t[0].lower(), t[1], t[2])])
     for t, got in zip(probes.triples, R["D"]):
         cands = [i for i in d if (i[1], i[2], i[3]) == (t[0].lower(), t[1], t[2])]
         if got is None:
